@@ -53,12 +53,9 @@ def run_case(case):
     info = {"mj": mj, "meta": meta, "P": P}
     out = base_out(info, case)
     Vm = model_solve(mj, P)
-    if any(u for u in Vm["undef"]):
-        out["skipped"] = "unsupported (undefined transition)"
-        return out
     # value arrays with -inf entries (states without any feasible choice) are *not* skipped here: the oracle compares
     # the implementation with itself, and an agent without a feasible choice must not pick up another agent's row
-    out["hist"]["ninf_in_V"] = int(any(y == "-inf" for b in Vm["V"] for y in b["data"]))
+    out["hist"]["ninf_in_V"] = int(any(y == "-inf" for b in Vm["V"] for y in b["data"]) or any(u for u in Vm["undef"]))
     init = gen_initial_states(r, mj, n, meta=meta) if "init" not in case else {s: [Fr(x) for x in v] for s, v in case["init"].items()}
     seed = case.get("sim_seed", 4242)
     stochastic = any(f.get("stochastic") for f in mj["functions"])
